@@ -461,7 +461,7 @@ def addSymlink (ext : WExt) (name target : Bytes) (o : FileOptions) : Step Unit 
 /-- `raw_copy_file_rename`: `src` is the source entry's metadata, `raw` what its raw reader delivers. -/
 def rawCopy (ext : WExt) (src : FileData) (raw : Bytes) (name : Bytes) : Step Unit := fun s => do
   let big := (if src.compressedSize ≥ src.uncompressedSize then src.compressedSize
-              else src.uncompressedSize) > ZIP64_BYTES_THR
+              else src.uncompressedSize) ≥ ZIP64_BYTES_THR
   let o : FileOptions := {
     method := src.method, level := none, time := src.time,
     permissions := src.unixMode, largeFile := big, encryptWith := none }
